@@ -140,6 +140,10 @@ def run(repo, rep):
     rule_round7(repo, rep)
     rep.clause("C18-l", "configuration files that cannot be parsed are rejected with a Vela error: the read is guarded, values are read without interpolation")
     rule_parse_guarded(repo, rep)
+    rep.clause("C18-m", "Sram-only modes: the port relabelled OnChipFlash is the port the constants are moved to")
+    rep.clause("C18-n", "numbers are converted by their own type (no float detour that truncates integer options)")
+    rep.clause("C18-o", "bundled system configurations: clock x port width x clock scale equals the bandwidth documented above the section")
+    rule_round8(repo, rep)
 
 
 # ------------------------------------------------------------------ a
@@ -896,3 +900,62 @@ def rule_parse_guarded(repo, rep):
                     ok = True
         rep.check(ok, "C18-l", f"ethosu/vela/architecture_features.py:{q}", f"`{str(norm(c))[:60]}` is guarded: parser errors become a Vela error",
                   "the parse is unguarded: a duplicate section / option or text before the first header escapes vela.main() as a configparser traceback (only VelaError is caught there)")
+
+
+def rule_round8(repo, rep):
+    """(m) when all three memory areas of a mode sit on the SRAM port, the constants are moved to the *other* port and that port is
+    relabelled OnChipFlash: in each branch the port whose area becomes OnChipFlash is the port const_mem_area was just set to. (n)
+    `_to_number` converts the file's text with the requested type itself (`int("393216.75")` raises and is reported; a detour through
+    float() truncates silently). (o) the bundled file documents the bandwidth of every memory of a system configuration in the comment
+    above its section: clock x port width (8 bytes on Ethos-U55, 16 on Ethos-U65) x clock scale must give the documented GB/s."""
+    import os as _os
+    import re as _re
+
+    af = repo.mod("architecture_features")
+    f = af.func("ArchitectureFeatures._get_vela_config")
+    site = "ethosu/vela/architecture_features.py:ArchitectureFeatures._get_vela_config"
+    n = 0
+    for i in ast.walk(f):
+        if isinstance(i, ast.If) and "self.const_mem_area == MemPort." in str(norm(i.test)):
+            for body in (i.body, i.orelse):
+                moved = [str(norm(a.value)) for a in body if isinstance(a, ast.Assign) and str(norm(a.targets[0])) == "self.const_mem_area"]
+                relab = [str(norm(a.targets[0])) for a in body if isinstance(a, ast.Assign) and str(norm(a.value)) == "MemArea.OnChipFlash"]
+                if len(moved) == 1 and len(relab) == 1:
+                    n += 1
+                    port = moved[0].split(".")[-1].lower()
+                    rep.check(relab[0] == f"self.{port}_port", "C18-m", site, f"constants moved to {moved[0]}: `self.{port}_port` becomes OnChipFlash",
+                              f"`{relab[0]} = MemArea.OnChipFlash` relabels the port that still carries arena and cache: a Sram-only mode with the SRAM on AXI1 is rejected ('Invalid configuration of arena_mem_area=OnChipFlash')")
+    if n < 2:
+        raise AnalysisError(f"_get_vela_config: {n} branches of the sram -> onchipflash override found")
+    g = af.func("ArchitectureFeatures._to_number")
+    rets = [r for r in ast.walk(g) if isinstance(r, ast.Return) and r.value is not None]
+    ok = len(rets) == 1 and isinstance(rets[0].value, ast.Call) and str(norm(rets[0].value.func)) == "number_type" and len(rets[0].value.args) == 1 and isinstance(rets[0].value.args[0], ast.Name)
+    rep.check(ok, "C18-n", "ethosu/vela/architecture_features.py:ArchitectureFeatures._to_number", "the text of the option is converted by the requested type itself",
+              f"`{str(norm(rets[0].value)) if rets else ''}`: an integer option written as 393216.75 or -0.5 is truncated (393216, 0) instead of being reported as a configuration error")
+    ini = _os.path.join(repo.root, "ethosu", "config_files", "Arm", "vela.ini")
+    lines = open(ini).read().splitlines()
+    k = 0
+    for idx, ln in enumerate(lines):
+        mm = _re.fullmatch(r"\[System_Config\.(Ethos_U(55|65)\w*)\]", ln.strip())
+        if not mm:
+            continue
+        doc = lines[idx - 1] if idx else ""
+        pairs = _re.findall(r"(SRAM|Sram|DRAM|Dram|Flash)\s*\(([0-9.]+) GB/s\)", doc)
+        vals = {}
+        for l2 in lines[idx + 1:]:
+            if l2.strip().startswith("["):
+                break
+            if "=" in l2 and not l2.strip().startswith(";"):
+                a, b = l2.split("=", 1)
+                vals[a.strip()] = b.strip()
+        width = 8 if mm.group(2) == "55" else 16
+        for name, gbs in pairs:
+            key = {"sram": "Sram", "dram": "Dram", "flash": "OffChipFlash"}[name.lower()] + "_clock_scale"
+            if key not in vals or "core_clock" not in vals:
+                continue
+            k += 1
+            got = float(vals["core_clock"]) * width * float(vals[key]) / 1e9
+            rep.check(abs(got - float(gbs)) <= 0.011 * max(1.0, float(gbs)), "C18-o", f"ethosu/config_files/Arm/vela.ini:[System_Config.{mm.group(1)}]", f"{key}: {vals['core_clock']} Hz x {width} B x {vals[key]} = the documented {gbs} GB/s",
+                      f"{key}={vals[key]} gives {got:.3f} GB/s, the section is documented as {name} ({gbs} GB/s)")
+    if k < 8:
+        raise AnalysisError(f"vela.ini: {k} documented bandwidths found")
